@@ -7,7 +7,7 @@
    [re : engine -> pattern -> text -> bool] is the regular-expression oracle (is_match of the three engines),
    [valid : engine -> pattern -> bool] says whether a pattern compiles.  Nothing is assumed about either.
    The abstract filter of the property text, its meaning [aspec] and its renderings are in Filter/FrontendsSpec.v. *)
-From Coq Require Import List NArith Bool.
+From Coq Require Import List NArith Bool Permutation.
 From AdltV Require Import Filter.Match Filter.MatchProofs Filter.Frontends Filter.FrontendsSpec
   Filter.FrontendsProofs Filter.FrontendsRoundtrip Filter.FrontendsXml Filter.FrontendsXmlProofs.
 Import ListNotations.
@@ -30,6 +30,25 @@ Section Statements.
     m_ext m = None -> needs_ext_header f = true ->
     criteria_hold re f m = false /\ matches re f m = f_enabled f && f_negate f.
   Proof. intros He Hn. split; [exact (no_ext_criteria_fail re f m He Hn)|exact (no_ext_matches re f m He Hn)]. Qed.
+
+  (* the lifecycle criterion is membership in the listed ids as a SET: it holds iff the list is empty or the
+     message's lifecycle id occurs in it, and two lists with the same elements (any order, any repetitions) give
+     filters that decide identically *)
+  Theorem C11_lifecycle_membership f l m :
+    pass_lifecycles (set_lifecycles f (Some l)) m = true <-> (l = [] \/ In (m_lc m) l).
+  Proof. exact (pass_lifecycles_in f l m). Qed.
+
+  Theorem C11_lifecycles_order_and_duplicates_irrelevant f l1 l2 m :
+    (forall y, In y l1 <-> In y l2) ->
+    matches re (set_lifecycles f (Some l1)) m = matches re (set_lifecycles f (Some l2)) m.
+  Proof. exact (matches_lifecycles_same_set re f l1 l2 m). Qed.
+
+  Corollary C11_lifecycles_permutation f l1 l2 m :
+    Permutation l1 l2 -> matches re (set_lifecycles f (Some l1)) m = matches re (set_lifecycles f (Some l2)) m.
+  Proof.
+    intros H. apply C11_lifecycles_order_and_duplicates_irrelevant. intros y.
+    split; [apply Permutation_in; exact H|apply Permutation_in; apply Permutation_sym; exact H].
+  Qed.
 
   (* the literal payload criterion is "the text can be cut into  before ++ literal ++ after" *)
   Theorem C11_substring_spec s t : substr s t = true <-> exists before after, t = before ++ s ++ after.
@@ -178,6 +197,9 @@ Qed.
 
 Print Assumptions C11_matches_spec.
 Print Assumptions C11_no_ext_header_fails_id_type_level.
+Print Assumptions C11_lifecycle_membership.
+Print Assumptions C11_lifecycles_order_and_duplicates_irrelevant.
+Print Assumptions C11_lifecycles_permutation.
 Print Assumptions C11_substring_spec.
 Print Assumptions C11_frontends_load_same_filter.
 Print Assumptions C11_dlf_file_loads.
